@@ -152,6 +152,18 @@ theorem window_frames_const {n : Nat} (hn : 1 ≤ n) (ch : Nat) (hch : 1 ≤ ch)
   | [] => rw [h] at hl; simp at hl; omega
   | l :: ls => simp [Rms.windowFrames, Rms.spec, Chan.windowFrames_spec]
 
+/-- what the detector HOLDS after any history (`rms.clone().into_parts()`): per channel, the window is exactly the
+    last `n` squares (zero-padded, oldest first) of that channel's inputs since the last reset, and `square_sum` their sum -/
+theorem parts_after_history {n : Nat} (hn : 1 ≤ n) (ch : Nat) (hch : 1 ≤ ch) (sqrt : K → K) (ops : List (Op K))
+    (hw : ∀ op ∈ ops, op.WF ch) :
+    (((Rms.init ch n : Rms K).run sqrt ops).1.step sqrt .parts).2 =
+      .parts ((List.range n).map fun i => (hist ch ops).map fun l => (specWindow n l).getD i 0)
+             ((hist ch ops).map fun l => (specWindow n l).sum) := by
+  have hwf := window_frames_const hn ch hch sqrt ops hw
+  simp only [Rms.step, hwf]
+  rw [state_after_history hn]
+  simp [Rms.spec, Chan.spec, Arith.zero, Function.comp_def]
+
 /-! ## 4. Any arithmetic (floats included): the clamp; the signal adaptor -/
 
 /-- *"is never negative"*, the part that holds in ANY arithmetic, the machine floats included: after
